@@ -361,6 +361,15 @@ func checkMain(propID, tier string) int {
 		}
 	}
 
+	if p.PostCheck != nil {
+		pv, pi, pe := p.PostCheck(tier, seed, dir)
+		violations = append(violations, pv...)
+		inconclusive = append(inconclusive, pi...)
+		for k, v := range pe {
+			extra[k] = v
+		}
+	}
+
 	// known findings: replay each listed case
 	exit := 0
 	for _, kf := range loadKnownFindings() {
@@ -390,7 +399,7 @@ func checkMain(propID, tier string) int {
 			continue
 		}
 		confirmed := v
-		if v.Kind != "data-race" && v.Idx >= 0 && !p.Race {
+		if v.Kind != "data-race" && v.Idx >= 0 && !p.Race && v.Kind != "os-file-access-bypassing-loaders" {
 			// (violations seen in the race-detector workloads depend on schedule and process history; they are
 			// reported as observed, like race reports, instead of being re-executed alone)
 			rv, died, hung, note := runSingle(p, tier, seed, v.Idx, dir, 150*time.Second)
